@@ -523,6 +523,8 @@ func main() {
 	// ----- part 2: every script body ≤ N tokens -----
 	btok := []string{"a", "=", ";", "\n", "\"s\"", "'s'", "`s`", "\"it's\"", "'say \"x\"'", "\"a\\\"b\"", "'a\\'b'", "\"//x\"", "'/*'", "// c'\"\n", "/* c'\" */", "/\"/", "/'/g", "a/b",
 		slot, "\"p" + slot + "q\"", "'" + slot + "'", "`" + slot + "`", "\"" + slot + "//x\"", "'" + slot + "/*'", "`${a}" + slot + "`",
+		// escaped quotes of the literal's own kind around a slot (an even number keeps the literal well-formed)
+		"`u \\`" + slot + "\\` n`", "'u \\'" + slot + "\\' n'", "\"u \\\"" + slot + "\\\" n\"", "`\\`\\`" + slot + "`",
 		// line continuations inside string literals (LF and CRLF files), CRLF as a plain line ending
 		"'a \\\n" + slot + "'", "'a \\\r\n" + slot + "'", "\"a \\\r\nb\"", "\r\n"}
 	bodyLen := run.Pick(3, 4)
@@ -555,5 +557,5 @@ func main() {
 	run.Assumption("JSExpression arguments and JSUnsafeFuncCall are documented as raw and excluded")
 	run.Assumption("script bodies that are not valid JavaScript for the reference lexer (unterminated literal) and slots inside comments or regex literals are skipped and counted")
 	run.Assumption("invalid UTF-8 in values is compared after U+FFFD replacement on both sides")
-	run.Finish(int(evals.Load()+bs.slotChecks.Load()), int(nontrivial.Load()+bs.slotChecks.Load()), "values: every string ≤ N over a 26-symbol JS/HTML-adversarial alphabet, nested slices/maps/structs of every string ≤ M, numbers/bools/nil, every Unicode scalar value and high byte × 9 JavaScript positions on compiled templates; bodies: every script body ≤ K tokens over a 29-token JS alphabet containing at least one {{ }} through the real parser × 13 adversarial values; non-trivial = alphabet/nested value (contains a metacharacter) or a body rendering")
+	run.Finish(int(evals.Load()+bs.slotChecks.Load()), int(nontrivial.Load()+bs.slotChecks.Load()), "values: every string ≤ N over a 26-symbol JS/HTML-adversarial alphabet, nested slices/maps/structs of every string ≤ M, numbers/bools/nil, every Unicode scalar value and high byte × 9 JavaScript positions on compiled templates; bodies: every script body ≤ K tokens over a 33-token JS alphabet containing at least one {{ }} through the real parser × 13 adversarial values; non-trivial = alphabet/nested value (contains a metacharacter) or a body rendering")
 }
